@@ -43,6 +43,9 @@ type Engine struct {
 	overlay  map[string][]byte
 	repoDir  string
 
+	redirect map[string]*ssa.Function // real primitive -> proven-equivalent scalar specification
+	sumNotes []string
+
 	encMu    sync.Mutex
 	encoded  map[string]bool // functions executed symbolically (for evidence)
 	solverKd string
@@ -251,4 +254,42 @@ func (e *Engine) encodedList() []string {
 	}
 	sort.Strings(out)
 	return out
+}
+
+// summaryPairs: primitives that tree-level scenarios replace by their scalar specification once the
+// equivalence has been discharged on the current working tree (for every input, C10a).
+var summaryPairs = []struct{ real, spec, harness string }{
+	{"searchNode4", "specSearchNode4", "hEqSearch4"},
+	{"insertPosNode4", "specInsertPosNode4", "hEqInsertPos4"},
+	{"searchNode16", "specSearchNode16", "hEqSearch16"},
+	{"insertPosNode16", "specInsertPosNode16", "hEqInsertPos16"},
+}
+
+// EstablishSummaries proves real == spec for all inputs and enables the substitution for the
+// primitives where the proof succeeds; the others keep being executed as they are.
+func (e *Engine) EstablishSummaries(workers int) []*Scenario {
+	var scns []*Scenario
+	for _, sp := range summaryPairs {
+		scns = append(scns, &Scenario{Harness: sp.harness, Params: []int{255}, Label: "summary:" + sp.real, NoSummaries: true})
+	}
+	ex := NewExplorer(e, workers)
+	ex.sampleMax = 0
+	if err := ex.Run(scns); err != nil {
+		e.sumNotes = append(e.sumNotes, "summaries disabled: "+err.Error())
+		return scns
+	}
+	red := map[string]*ssa.Function{}
+	for i, sp := range summaryPairs {
+		s := scns[i]
+		if s.Finished > 0 && s.Inconclusive == 0 && len(s.Violations) == 0 && s.Stopped == 0 {
+			if fn := e.pkg.Func(sp.spec); fn != nil {
+				red[sp.real] = fn
+				e.sumNotes = append(e.sumNotes, fmt.Sprintf("%s == %s for all inputs (%d paths, unsat): summary enabled", sp.real, sp.spec, s.Finished))
+				continue
+			}
+		}
+		e.sumNotes = append(e.sumNotes, fmt.Sprintf("%s: equivalence with %s NOT established (violations=%d inconclusive=%d): real code is executed", sp.real, sp.spec, len(s.Violations), s.Inconclusive))
+	}
+	e.redirect = red
+	return scns
 }
